@@ -16,6 +16,7 @@ import (
 	"math/rand"
 	"strings"
 	"sync"
+	"sync/atomic"
 	"time"
 
 	"github.com/hashicorp/nodeenrollment"
@@ -89,12 +90,19 @@ func baseTLSConfig() *tls.Config {
 	k := world.NewKeys()
 	now := time.Now()
 	der := world.MintSelfSigned(k, world.LeafSpec{SubjectKeyID: k.Pkix, CommonName: "base", DNSNames: []string{"base"}, NotBefore: now.Add(-time.Hour), NotAfter: now.Add(24 * time.Hour), EKU: []x509.ExtKeyUsage{x509.ExtKeyUsageServerAuth}})
-	return &tls.Config{
+	inner := &tls.Config{
 		Certificates: []tls.Certificate{{Certificate: [][]byte{der}, PrivateKey: k.Priv}},
 		NextProtos:   []string{"h2", "A", "B", "__AUTH__", "__UNAUTH__", "C"},
 		MinVersion:   tls.VersionTLS12,
 	}
+	if baseTLSSeq.Add(1)%2 == 0 {
+		// an application whose base configuration chooses the real one per client
+		return &tls.Config{MinVersion: tls.VersionTLS12, GetConfigForClient: func(*tls.ClientHelloInfo) (*tls.Config, error) { return inner, nil }}
+	}
+	return inner
 }
+
+var baseTLSSeq atomic.Int64
 
 // craftRoots stores a root set with chosen windows (offsets relative to now)
 func craftRoots(s *world.Server, curNB, curNA, nextNB, nextNA time.Duration) (*types.RootCertificates, *world.Keys, *world.Keys) {
